@@ -102,6 +102,11 @@ def v1_inputs(rng, tier, k=None):
                 pool.append(b"PROXY UNKNOWN " + filler + bytes([b]) + b"a\r\n")
                 pool.append(b"PROXY UNKNOWN " + filler + bytes([b, b]) + b"\r\nrest")
                 pool.append(b"PROXY TCP4 1.2.3.4 5.6.7.8 1 2" + b"\r\n" + filler + bytes([b]))
+    # the first CR directly followed by a multi-byte character, with a CRLF (or more text) further on
+    for lead in (b"\xc3\xa9", b"\xe2\x82\xac", b"\xf0\x9f\x98\x80", b"\xc2\x85"):
+        for body in (b"PROXY UNKNOWN", b"PROXY UNKNOWN x", b"PROXY TCP4 1.1.1.1 2.2.2.2 1 2", b"PROXY", b""):
+            pool += [body + b"\r" + lead + b"\r\n", body + b"\r" + lead + b"x\r\n", body + b"\r" + lead + lead + b"\r\nGET",
+                     body + b" " + lead + b"\r" + lead + b"\r\n"]
     # lengths whose low 8 / low 16 bits are small again: a limit comparison done in a narrowed type
     # (u8, u16) accepts them
     for total in (255, 256, 257, 300, 363, 364, 512, 619, 620, 65535, 65536, 65537, 65600, 65643, 65644, 131072 + 50):
